@@ -656,6 +656,8 @@ def run(report, prog, tier):
 
 
 MUTANTS = [
+    ('tt1-flush-block-write-only-for-topaz512', 'nfc.tag.tt1', "        if hr0 >> 4 == 1 and hr0 & 0x0F != 1:", "        if hr0 == 0x12:", 'C01-R6'),
+    ('tt2-flush-skips-odd-pages', 'nfc.tag.tt2', "            index += 4\n", "            index += 8\n", 'C01-R6'),
     ('tt3-ndef-system-keeps-old-idm', 'nfc.tag.tt3', "                    self.tag.idm, self.tag.pmm = self._tag.polling(0x12FC)\n", "                    self._tag.polling(0x12FC)\n", 'C01-R7'),
     ('capacity-gate-dropped', 'nfc.tag', """            if len(data) > self.capacity:
                 raise ValueError("data length exceeds tag capacity")
